@@ -26,6 +26,12 @@ def bundle_map(c):
     return {observe._uri(b.identifier): Counter(observe.cont_obs(b)) for b in c.bundles}
 
 
+def content_snapshot(c):
+    """Records and bundles (identifier -> records) of a container, namespaces left out:
+    "without changing d" is about what d holds."""
+    return (observe.cont_obs(c), tuple(sorted(((u, tuple(sorted(m.elements(), key=repr))) for u, m in bundle_map(c).items()), key=repr)))
+
+
 def msdiff(exp, got):
     return {
         "missing": [repr(x) for x in list((exp - got).elements())[:3]],
@@ -82,14 +88,15 @@ class C09(Oracle):
                             Counter(observe.cont_obs(c)), bundle_map(c),
                             None if o is None else Counter(observe.cont_obs(o)),
                             None if o is None else bundle_map(o),
-                            [observe._uri(b.identifier) for b in c.bundles] if c.is_document() else [])
+                            [observe._uri(b.identifier) for b in c.bundles] if c.is_document() else [],
+                            content_snapshot(c))
             elif k in ("add_bundle", "add_bundle_bad"):
                 d = w.doc(op[1])
                 b = w.cont(op[2]) if k == "add_bundle" else None
                 self.ctx = (k, d, full_snapshot(d), b,
                             None if b is None else (full_snapshot(b) if b.is_document() else None),
                             None if b is None else Counter(observe.cont_obs(b)),
-                            bundle_map(d), Counter(observe.cont_obs(d)))
+                            bundle_map(d), Counter(observe.cont_obs(d)), content_snapshot(d))
             elif k == "bundle":
                 d = w.doc(op[2])
                 self.ctx = ("bundle", d, full_snapshot(d), bundle_map(d), Counter(observe.cont_obs(d)))
@@ -111,8 +118,6 @@ class C09(Oracle):
         if out.status != "ok":
             raise Violation("C09", "flattened", "raised", {"operation": op, "error": repr(out.exc)})
         f = out.result
-        if full_snapshot(d) != snap and f is not d:
-            raise Violation("C09", "flattened", "source-changed", {"operation": op})
         if f.has_bundles() and d.has_bundles():
             raise Violation("C09", "flattened", "result-has-bundles", {"operation": op})
         exp = Counter(observe.cont_obs(d))
@@ -132,21 +137,26 @@ class C09(Oracle):
     def chk_update_bad(self, w, op, out):
         _, c, snap = self.ctx[:3]
         self.probe("refusal_non_bundle")
-        if not out.refused:
-            raise Violation("C09", "update-refusal", "non-bundle-accepted", {"operation": op, "outcome": out.summary()})
-        if full_snapshot(c) != snap:
+        # the statement promises nothing about non-bundle arguments except, trivially, that
+        # there is nothing to add: whatever the call does, the target's content stays
+        if content_snapshot(c) != self.ctx[10]:
             raise Violation("C09", "update-refusal", "target-changed", {"operation": op})
 
     def chk_update(self, w, op, out):
-        (_, c, snap, o, osnap, crecs, cb, orecs, ob, cb_order) = self.ctx
+        (_, c, snap, o, osnap, crecs, cb, orecs, ob, cb_order, ccontent) = self.ctx
         self.count("update_calls")
         must_refuse = (not c.is_document()) and o.is_document() and len(ob) > 0
         if must_refuse:
+            # a bundle cannot take over another document's bundles; the statement does not say
+            # what then happens: a refusal must leave the target's content alone, an acceptance
+            # must at least add exactly other's own records
             self.probe("refusal_bundle_update_with_subbundles")
-            if not out.refused:
-                raise Violation("C09", "update-refusal", "doc-with-bundles-accepted", {"operation": op})
-            if full_snapshot(c) != snap:
-                raise Violation("C09", "update-refusal", "target-changed", {"operation": op})
+            got = Counter(observe.cont_obs(c))
+            if out.status != "ok":
+                if content_snapshot(c) != ccontent:
+                    raise Violation("C09", "update-refusal", "target-changed", {"operation": op})
+            elif got != crecs + orecs:
+                raise Violation("C09", "update", "records", dict(operation=op, **msdiff(crecs + orecs, got)))
             return
         if out.status != "ok":
             raise Violation("C09", "update", "raised", {"operation": op, "error": repr(out.exc)})
@@ -183,13 +193,11 @@ class C09(Oracle):
     def chk_add_bundle_bad(self, w, op, out):
         _, d, snap = self.ctx[:3]
         self.probe("refusal_non_bundle")
-        if not out.refused:
-            raise Violation("C09", "add_bundle-refusal", "non-bundle-accepted", {"operation": op})
-        if full_snapshot(d) != snap:
+        if content_snapshot(d) != self.ctx[8]:
             raise Violation("C09", "add_bundle-refusal", "document-changed", {"operation": op})
 
     def chk_add_bundle(self, w, op, out):
-        (_, d, snap, b, bsnap, brecs, dbundles, drecs) = self.ctx
+        (_, d, snap, b, bsnap, brecs, dbundles, drecs, dcontent) = self.ctx
         self.count("add_bundle_calls")
         idspec = op[3]
         refuse = None
@@ -209,13 +217,7 @@ class C09(Oracle):
             if not out.refused:
                 raise Violation("C09", "add_bundle-refusal", refuse + "-accepted",
                                 {"operation": op, "outcome": out.summary()})
-            after = full_snapshot(d)
-            if b.is_bundle() and b.document is d:
-                # the argument is one of d's own bundles; its identifier may have been
-                # rewritten by the refused call - compare everything but that
-                if after[0] != snap[0]:
-                    raise Violation("C09", "add_bundle-refusal", "document-changed", {"operation": op})
-            elif after != snap:
+            if content_snapshot(d) != dcontent:
                 raise Violation("C09", "add_bundle-refusal", "document-changed",
                                 {"operation": op, "why": refuse})
             return
@@ -270,10 +272,9 @@ class C09(Oracle):
             return
         self.count("bundle_calls")
         if uri in dbundles:
+            # bundle() with an identifier in use: nothing is promised beyond conservation
             self.probe("refusal_duplicate-identifier")
-            if not out.refused:
-                raise Violation("C09", "bundle-refusal", "duplicate-accepted", {"operation": op})
-            if full_snapshot(d)[0][0] != snap[0][0] or bundle_map(d) != dbundles:
+            if Counter(observe.cont_obs(d)) != drecs or bundle_map(d) != dbundles:
                 raise Violation("C09", "bundle-refusal", "document-changed", {"operation": op})
             return
         if out.status != "ok":
